@@ -139,6 +139,8 @@ class Types:
                 return "ref"
             if re.match(r"std::(__)?shared_ptr<.*>::element_type$", inner):
                 return "ref"
+            if inner.startswith("std::enable_shared_from_this<"):
+                return "ref"       # `this` seen through its enable_shared_from_this base
             ic = self._ctype(inner)
             return None if ic is None else ic + " *"
         head, args = split_targs(t)
@@ -269,6 +271,8 @@ class Unit:
         self.strings = {}
         self.used_enumerators = {}
         self.global_decls = {}    # name -> top-level VarDecl
+        self.field_decls = {}     # F_name -> FieldDecl
+        self.rec_stubs = set()    # functions whose self-recursive calls go to the contract stub <name>__rec
 
     # ---- naming ---------------------------------------------------------------------------
     def add_tu(self, tu):
@@ -337,6 +341,38 @@ class Unit:
                 base += "_c"
         self.sig2cname[ns] = base
         return base
+
+    def heap_tools(self):
+        """heap_alloc(kind): a FRESH object whose fields have the defaults of the *Impl records
+        (in-class member initialisers from the AST, else zero/empty) - the contract of create();
+        heap_snapshot()/heap_same_at(k): the frame `object k is unchanged`."""
+        t = ["#ifdef HEAP_TOOLS", "ref __next_free;", "static inline ref heap_alloc(unsigned char kind)", "{",
+             "    ref r = __next_free;", "    MODEL_BOUND(r != 0 && r < HEAP_N);", "    __next_free = r + 1;", "    __kind[r] = kind;"]
+        for f in sorted(self.fields):
+            ct = self.fields[f]
+            fd = self.field_decls.get(f)
+            ini = [c for c in (fd or {}).get("inner", []) if isinstance(c, dict) and c.get("kind") and "Comment" not in c.get("kind")]
+            if ini:
+                fl = FunctionLowerer(self, self.tus[0], {"kind": "FunctionDecl", "inner": [], "name": "heap_alloc"})
+                fl.cname = "heap_alloc"
+                val = fl.expr(ini[0])
+            elif ct in SCALARS.values() or ct in ("ref", "int", "sid") or ct.endswith("*"):
+                val = "0"
+            else:
+                val = "%s_new()" % ct
+            t.append("    %s[r] = %s;" % (f, val))
+        t += ["    return r;", "}"]
+        for f in sorted(self.fields):
+            t.append("%s S_%s[HEAP_N];" % (self.fields[f], f))
+        t += ["static inline void heap_snapshot(void)", "{", "    for (unsigned k = 0; k < HEAP_N; ++k) {"]
+        for f in sorted(self.fields):
+            t.append("        S_%s[k] = %s[k];" % (f, f))
+        t += ["    }", "}", "static inline bool heap_same_at(ref k)", "{", "    return 1"]
+        for f in sorted(self.fields):
+            ct = self.fields[f]
+            t.append("        && %s_keyeq(S_%s[k], %s[k])" % (ct if " " not in ct else "int", f, f))
+        t += ["        ;", "}", "#endif"]
+        return "\n".join(t)
 
     def value_struct_decls(self):
         """C struct definitions for records used by value, keyed by the model type after which
@@ -419,9 +455,10 @@ class Unit:
             if ct.startswith(("vvec_", "vmap_", "vset_")):
                 hv.append("    HAVOC_CONTAINER_FIELD(%s, %s);" % (f, ct))
             else:
-                hv.append("    __CPROVER_havoc_object(%s);" % f)
+                hv.append("    HAVOC_SCALAR_FIELD(%s, %s, %s);" % (f, ct, self.types.abbr(ct)))
         hv += ["#endif", "}"]
         out.append("\n".join(hv))
+        out.append(self.heap_tools())
         for g in self.globals_.values():
             out.append(g)
         for cn, p in sorted(self.protos.items()):
@@ -492,9 +529,24 @@ class FunctionLowerer:
         self.calls = {}
         self.ptr_vars = set()   # ids of locals/params lowered to pointers (C++ non-const references)
         self.parent = parent
-        self.is_method = fdecl.get("kind") in ("CXXMethodDecl",) and fdecl.get("storageClass") != "static"
+        self.is_method = fdecl.get("kind") in ("CXXMethodDecl",) and not self._is_static(fdecl)
         self.cname = unit.cname_for(fdecl) if fdecl.get("mangledName") else None
         self.renames = {}       # decl id -> C identifier
+
+    def _is_static(self, fdecl):
+        d, hops = fdecl, 0
+        while d is not None and hops < 8:
+            if d.get("storageClass") == "static":
+                return True
+            pid = d.get("previousDecl")
+            d = None
+            if pid:
+                for tu in self.u.tus:
+                    if pid in tu.by_id:
+                        d = tu.by_id[pid]
+                        break
+            hops += 1
+        return False
 
     # ---- diagnostics ----------------------------------------------------------------------
     def bad(self, n, why):
@@ -1116,6 +1168,7 @@ class FunctionLowerer:
             if owner is not None and owner.startswith("libcellml::") and self.is_heap_record(owner):
                 arr = "F_%s_%s" % (cident(owner.split("::")[-1]), name)
                 self.u.fields.setdefault(arr, self.T.ctype(fd["type"], where=arr))
+                self.u.field_decls.setdefault(arr, fd)
                 b = self.obj_ref(base, n.get("isArrow"))
                 return "%s[%s]" % (arr, b)
             # plain struct (std::pair, local aggregates)
@@ -1455,6 +1508,11 @@ class FunctionLowerer:
         else:
             self.note_call(cn)
             self.ensure_proto(md, cn)
+            if cn == self.cname and cn in self.u.rec_stubs:
+                # induction on the depth of the object tree: the recursive call is the function's
+                # own contract, provided by the spec as <name>__rec
+                self.u.protos[cn + "__rec"] = self.u.protos[cn].split("\n")[0].replace(cn + "(", cn + "__rec(") + ";"
+                cn = cn + "__rec"
         a = self.call_args(md, args)
         return "%s(%s)" % (cn, ", ".join([objs] + a))
 
@@ -1468,8 +1526,10 @@ class FunctionLowerer:
             oq = _strip(self.T.qt(obj["type"]))
             weak = "weak_ptr" in oq or "WeakPtr" in oq
             oe = "(*%s)" % self.expr(obj) if deref else self.expr(obj)
-            if name == "get" and not weak:
+            if name in ("get", "shared_from_this") and not weak:
                 return oe
+            if name == "operator bool":
+                return "(%s != 0)" % oe
             if name == "lock" and weak:
                 return "WEAK_LOCK(%s)" % oe
             if name == "expired" and weak:
